@@ -59,7 +59,9 @@ class C12(Scenario):
         if mode == "protocol":
             m.drain()
             case["level"] = rng.choice(["buffer", "buffer", "emitter", "observer"])
-            case["ops"] = fm.gen_ops(rng, m, rng.randrange(0, 6), paced=False, allow={"mkfile", "write", "mkdir", "unlink", "rename", "rmdir"})
+            # (moveout: a directory leaves the tree, so that close()/stop() can fall inside the pairing delay of its IN_MOVED_FROM -
+            # what the emitter does with the held-back half afterwards must not touch the released descriptors)
+            case["ops"] = fm.gen_ops(rng, m, rng.randrange(0, 6), paced=False, allow={"mkfile", "write", "mkdir", "unlink", "rename", "rmdir", "moveout"})
             case["close_after"] = rng.choice([0, 0, 0, 1, 2, 3, 5, 8, 13, 30])
             case["consumer"] = rng.random() < 0.6
             case["rmroot"] = rng.random() < 0.2  # the watched root is deleted while the reader runs, then close()/stop()
